@@ -20,6 +20,8 @@ func init() {
 			{Rule: "HANDPARSE", Bad: "canaryBadParseLoneSign", Good: "canaryGoodParseCutoff"},
 			{Rule: "SIGNED-FIELD", Bad: "canaryBadDigitRuns", Good: "canaryGoodSplit"},
 			{Rule: "SIGNED-FIELD", Bad: "canaryBadUnsignedComponents", Good: "canaryGoodSplit"},
+			{Rule: "LENCAP", Bad: "canaryBadLenCap", Good: "canaryGoodNoCap"},
+			{Rule: "INDEX-SIGN", Bad: "canaryBadOptionIndex", Good: "canaryGoodOptionIndex"},
 			{Rule: "GUARD", Bad: "canaryBadZoomGuard", Good: "canaryGoodZoomGuard"},
 			{Rule: "PARSE-BASE", Bad: "canaryBadBase0", Good: "canaryGoodCheckedAtoi"},
 			{Rule: "ERRSWALLOW", Bad: "canaryBadSwallowErr", Good: "canaryGoodReportErr"},
@@ -34,6 +36,7 @@ func init() {
 	register(&propSpec{ID: "C18", Level: "other", Run: runC18,
 		Explain: otherNote + "C18: decided = altitude is the same SSA value end to end (never the transformed height); x/y are exactly the transform's results; one output per input in order; the Safe transform's error is tested every iteration and mapped to the conversion error; forward/backward use (4326 -> crs)/(crs -> 4326). Numeric invertibility is NOT decided."})
 	register(&propSpec{ID: "C20", Level: "other", Run: runC20,
+		Canary:  []CanaryExpect{{Rule: "EXTREMUM", Bad: "canaryBadExtremum", Good: "canaryGoodExtremum"}},
 		Explain: otherNote + "C20: decided = the signed shift is floor for both signs; Max/Min/MaxPoint/MinPoint reject empty input before indexing; helpers do not write their arguments; the set operations have the total-scan / membership-filter shape of the operations they are named after; the nine matrix-product cells have the sum-over-k index pattern. Value laws of Combinations, vectors and quaternions are NOT decided."})
 }
 
@@ -64,6 +67,8 @@ func runC15(w *World, r *Report, tier string) {
 	ruleErrSwallow(w, r, nil)
 	ruleHandParse(w, r)
 	ruleSignedField(w, r)
+	ruleLenCap(w, r)
+	ruleIndexSign(w, r)
 	rulePointFields(w, r)
 	for _, n := range []string{"detector.CheckSpatialIdsArrayOverlap", "detector.CheckExtendedSpatialIdsOverlap", "detector.CheckExtendedSpatialIdsArrayOverlap",
 		"transform.ConvertTileXYZsToExtendedSpatialIDs", "transform.ConvertTileXYZsToSpatialIDs"} {
@@ -143,6 +148,7 @@ func runC18(w *World, r *Report, tier string) {
 	r.Rule("CRS-ARGS", "forward uses SafeTransform(Code(consts.GeoCrs), Code(projectedCrs)), backward SafeTransform(Code(projectedCrs), Code(consts.GeoCrs))")
 	r.Rule("ERRUSED", "the error of the transform is tested in every iteration; its non-nil edge returns errors.ValueConvertErrorCode; the Safe variant is used so that an unknown EPSG code becomes an error")
 	unresolvedSeeds(w, r)
+	rulePointFields(w, r)
 	ruleChunks(w, r, closureOf(w, entryFuncs(w, r, "shape.ConvertPointListToProjectedPointList", "shape.ConvertProjectedPointListToPointList")))
 	for _, it := range []struct {
 		fn  string
@@ -162,6 +168,7 @@ func runC20(w *World, r *Report, tier string) {
 	ashiftRule(w, r)
 	ruleEmptyGuard(w, r)
 	ruleSetOps(w, r)
+	ruleExtremum(w, r, lookupByName(w, "common.Max"), lookupByName(w, "common.Min"))
 	ruleMatMul(w, r)
 	r.Rule("EFFECT-PARAM", "no helper of common and common/spatial writes memory reachable from its arguments (UniqueAppend appends to its first argument by contract)")
 	e := effectsFor(w)
